@@ -18,13 +18,15 @@ ALLOWED_AXIOMS = ()
 RULE = ('one request against one AuthTktCookieHelper configuration: a cookie value (issued by the real helper and then '
         'kept / edited / spliced / re-cased / re-quoted, issued under another secret, algorithm or address, signed '
         'foreign fields, or garbage) x clock (incl. issue+timeout+{-1,0,1}, issue+reissue_time+{-1,0,1}) x a sequence '
-        'of <= 5 identify/remember/forget calls, response callbacks run, every issued cookie fed back into a fresh '
+        '(whole and +0.5 s) x a sequence of <= 5 identify/remember/forget calls, response callbacks run, every issued cookie fed back into a fresh '
         'identify; non-trivial = the request carries a cookie that reaches the digest comparison (fields parse) or the '
         'sequence issues a ticket; distinct by full case')
 ASSUMPTIONS = [
     'hashlib is an oracle: H(alg, bytes) -> hexdigest and digest_size come from hashlib itself, per case, through '
     'query rounds driven by the model (never from the Pyramid code under test)',
-    'clock values are whole seconds (float clocks within one second of a boundary are a stated specification boundary); '
+    'clock values are whole or half seconds (time() floats are modelled at half-second resolution; the ticket stores '
+    'int(issue time), so "issue time" in the spec is the floored one: a ticket really issued at t0+0.9 and presented at '
+    't0+timeout+0.5 is rejected by the code although its true age is below the timeout -- a stated specification boundary); '
     'issue times are < 2^32 (eight hex digits) where acceptance is demanded',
     'cookie text comes out of WebOb\'s strict UTF-8 decoder, so it holds Unicode scalar values only (no lone surrogates)',
     'REMOTE_ADDR is a dotted-decimal IPv4 address with parts <= 255 or an IPv6 text containing ":" (latin-1)',
@@ -157,7 +159,7 @@ def issue_origin(o):
     if not _impl:
         setup('quick')
     h = _impl['A'].AuthTktCookieHelper(o['secret'], hashalg=o['hashalg'], include_ip=True)
-    _impl['clock'].t = o['t0']
+    _impl['clock'].t = o['t0'] + o.get('frac', 0)      # the ticket stores int(time)
     r = _mkreq({'host': 'example.com', 'ip': o['ip']}, 'auth_tkt', None)
     try:
         hs = h.remember(r, _py_uval(o['u']), tokens=tuple(o['tokens']))
@@ -181,15 +183,16 @@ def run_impl(case):
     cfg, rq = case['cfg'], case['req']
     h = _helper(cfg)
     hfb = _helper(cfg, reissue_time=None)
-    _impl['clock'].t = rq['now']
+    tnow = rq['now'] + 0.5 if rq.get('half') else rq['now']     # float clock, as time.time() gives
+    _impl['clock'].t = tnow
     if case.get('seam'):
-        h.now = rq['now']
-        hfb.now = rq['now']
+        h.now = tnow
+        hfb.now = tnow
     oc = []
     if case.get('origin'):
         v = issue_origin(case['origin'])
         oc = [] if v is None else [v]
-        _impl['clock'].t = rq['now']
+        _impl['clock'].t = tnow
     req = _mkreq(rq, cfg['cookie_name'], rq['cookie'])
     outs, fed = [], []
     for op in case['ops']:
@@ -283,7 +286,7 @@ def _base_wire(case, htab):
         org = [[o['secret'], o['hashalg'], o['ip'], o['t0'], o['u'], list(o['tokens'])]]
     dt = [[a, hashlib.new(a).digest_size] for a in sorted(algs)]
     ops = [[0] if op[0] == 0 else [2] if op[0] == 2 else [1, op[1], _opt(op[2]), list(op[3])] for op in case['ops']]
-    return [_cfg_wire(cfg), [_opt(rq['cookie']), rq['ip'], _host_domain(rq['host']), rq['now']], ops, org,
+    return [_cfg_wire(cfg), [_opt(rq['cookie']), rq['ip'], _host_domain(rq['host']), rq['now'], bool(rq.get('half'))], ops, org,
             [dt, htab, _uni_table(rq['cookie'])]]
 
 
@@ -546,6 +549,8 @@ def kinds(case, obs):
     ks.append('alg:' + case['cfg']['hashalg'])
     if case.get('clock'):
         ks.append('clock:' + case['clock'])
+    if case['req'].get('half'):
+        ks.append('clock-fraction:.5')
     if case['cfg']['include_ip']:
         ks.append('ip:' + ('v6' if ':' in case['req']['ip'] else 'v4'))
     return ks
